@@ -339,6 +339,28 @@ def run(index, rep, tier):
         from . import c06
         rep.floor("R05.2", "field-to-field merges in SplitDistribution.update", 5, c06.like_to_like_rule(index, rep, "R05.2", [SD + ".update"]))
 
+    # ---------------- R05.11
+    with rep.section("R05.11"):
+        rep.rule("R05.11", "order statistics are read from the sorted sample: in the statistics module a function that sorts its sample into a copy never indexes the unsorted original afterwards (median, quantiles and HPD bounds must not depend on the order in which trees arrived)")
+        nsort = 0
+        for f in index.functions_in_module("dendropy.calculate.statistics"):
+            for a in walk_no_nested(f.node):
+                if not (isinstance(a, ast.Assign) and isinstance(a.value, ast.Call) and isinstance(a.value.func, ast.Name) and a.value.func.id == "sorted" and a.value.args and isinstance(a.value.args[0], ast.Name) and isinstance(a.targets[0], ast.Name)):
+                    continue
+                src, dst = a.value.args[0].id, a.targets[0].id
+                if src == dst or src not in f.params:
+                    continue
+                nsort += 1
+                g = cfg_of(f)
+                after = set()
+                for nd in g.nodes_of_stmt(a):
+                    after |= {x.id for x in g.reach([nd], follow_exc=False)}
+                bad = [x for nd in g.nodes if nd.id in after and nd.stmt is not a for e in node_exprs(nd) for x in ast.walk(e)
+                       if isinstance(x, ast.Subscript) and isinstance(x.value, ast.Name) and x.value.id == src and isinstance(x.ctx, ast.Load)]
+                rep.check(not bad, "R05.11", f.qualname, "indexes the unsorted sample after sorting it into a copy", fn_where(f, bad[0] if bad else a), "%s reads positions from `%s`, the sorted copy of `%s`" % (f.name, dst, src),
+                          "%s sorts `%s` into `%s` and then reads `%s`: a position in the unsorted sample is whatever tree happened to arrive at that place, so the statistic (the median edge length or node age a summary tree is given) changes with the order and partitioning of the input although the multiset of values is the same" % (f.qualname, src, dst, norm(bad[0])[:40] if bad else ""))
+        rep.floor("R05.11", "sorted copies of a sample parameter in the statistics module", 1, nsort)
+
     # ---------------- R05.10
     with rep.section("R05.10"):
         rep.rule("R05.10", "summaries fail independently: in statistics.summarize each try-block computes one statistic (one statistics function per block), so a sample too small for the quantiles cannot blank the median; percent scaling of support values is applied once (a value already multiplied by 100 is not handed to the label composer, which scales itself)")
